@@ -12,7 +12,7 @@ BOUNDS = dict(cmp_universe = 'None | any bool | any int |i|<=2^40 | any float (f
                              'different identity) | 5 strings | any datetime 1900-2300 (to the second) | date | numpy scalar pool; tuples/lists/dicts (keys a,b) '
                              'of length 0..2 (quick: 0..1 for triples) of these; nesting depth 1 (thorough: one more level for pairs)',
               sort_universe = 'lists of length <= 3 (thorough 4) of None | int | finite float | NaN | str | datetime, and of equal-length 2-tuples of them',
-              dictable_sort = 'tables of <= 3 rows (thorough 4), 1..2 key columns with cells None | int | str, key function, value orders over a 4-string pool')
+              dictable_sort = 'tables of <= 3 rows (thorough 4), 1..2 key columns with cells None | int | str (and int | finite float | NaN), key function, value orders over a 4-string pool')
 OUTSIDE = ['numpy arrays and pandas objects as cmp operands', 'float rounding (floats are extended reals)', 'containers longer than 2 or deeper than 2', 'lists longer than 4']
 ASSUMPTIONS = ['floats are modelled as extended reals (kind + exact real value); float(int) is exact for |int| <= 2^40',
                'np.isnan/np.isinf on python scalars are replaced by proxy-aware versions (arrays still go to numpy)',
@@ -114,10 +114,11 @@ def mk_table(c, nrows, ncols, kinds = CELLK):
     cols['rid'] = list(range(nrows))
     return dictable(**{k: list(v) for k, v in cols.items()}), cols
 
-def h_dsort(nrows, ncols, how):
+def h_dsort(nrows, ncols, how, kinds = CELLK):
     def h(c):
         S = _S()
-        d, cols = mk_table(c, nrows, ncols)
+        d, cols = mk_table(c, nrows, ncols, kinds)
+        if 'nan' in kinds and nrows: c.cover('a-nan-key', X.Or([V.is_nan(v) for j in range(ncols) for v in cols['k%d' % j]]))
         keys = ['k%d' % j for j in range(ncols)]
         if how == 'cols': r = d.sort(*keys)
         elif how == 'list': r = d.sort(keys)
@@ -166,6 +167,9 @@ def obligations(tier):
         for j, sy in enumerate(['scalar', 'tuple', 'list', 'dict']):
             obs.append(Ob('cmp.transitive.containers.%s-%s' % (sx, sy), h_trans(1, 1 if q else 2, tk, tk), setup = setup, pins = {'x.shape': i, 'y.shape': j},
                           budget_s = 300 if q else 1500, desc = 'transitivity over triples (x a %s, y a %s, z anything) of scalars and containers of length <= %d' % (sx, sy, 1 if q else 2)))
+    for i, sx in enumerate(['scalar', 'tuple', 'list', 'dict']):
+        if i: obs.append(Ob('cmp.transitive.containers.bool-vs-number.%s' % sx, h_trans(1, 1 if q else 2, ['bool', 'int', 'float'], ['bool', 'int', 'float']), setup = setup, pins = {'x.shape': i, 'y.shape': i, 'z.shape': i},
+                            budget_s = 300 if q else 1500, desc = 'transitivity / equivalence classes over triples of %ss holding bools, ints and floats (True == 1 in python, not under cmp)' % sx))
     if not q:
         obs.append(Ob('cmp.antisymmetric.depth2', h_antisym(2, 1), setup = setup, budget_s = 1500, desc = 'antisymmetry, nesting depth 2, length <= 1'))
     for n in range(0, 4 if q else 5):
@@ -179,6 +183,11 @@ def obligations(tier):
             if nrows >= 3 and ncols == 2 and (q or how == 'list' or nrows > 3): continue
             obs.append(Ob('dictable.sort.%s.%dx%d' % (how, nrows, ncols), h_dsort(nrows, ncols, how), setup = setup, budget_s = 300 if nrows < 4 else 1500,
                           desc = 'dictable.sort by %d key column(s) (%s), %d rows: stable permutation ordered under cmp, idempotent' % (ncols, how, nrows)))
+    for nrows in range(2, 4 if q else 5):
+        for ncols in (1, 2):
+            if ncols == 2 and nrows > (2 if q else 3): continue
+            obs.append(Ob('dictable.sort.float-keys.%dx%d' % (nrows, ncols), h_dsort(nrows, ncols, 'cols', ['int', 'ffloat', 'nan']), setup = setup, budget_s = 300 if nrows < 4 else 1500,
+                          desc = 'dictable.sort by %d key column(s) holding ints, floats and NaN, %d rows: stable permutation ordered under cmp, idempotent' % (ncols, nrows)))
     for nrows in range(0, 4 if q else 5):
         for order in (['c', 'a', 'b'], ['b'], ['a', 'b', 'c', 'zz']):
             obs.append(Ob('dictable.sort.byval.%d.%s' % (nrows, ''.join(order)), h_dsort_byval(nrows, order), setup = setup, desc = 'explicit value order %s on %d rows' % (order, nrows)))
